@@ -159,6 +159,21 @@ def replay_file_schedule(fi, schedule):
     return out[0] == 'bad', out[1]
 
 
+def make_user_class():
+    class User:
+        refs = []          # class-level defaults, as in hand-written model classes
+        more = []
+        one = None
+
+        def __init__(self, parent=None, name=None, refs=None, one=None, more=None):
+            self.parent, self.name, self.one = parent, name, one
+            if refs is not None:
+                self.refs = refs
+            if more is not None:
+                self.more = more
+    return User
+
+
 def run_case(ci, max_rounds, timeout_ms):
     from textx import metamodel_from_str
     from textx.scoping import Postponed
@@ -168,9 +183,11 @@ def run_case(ci, max_rounds, timeout_ms):
     ctx = Ctx(timeout_ms, max_paths=200000)
 
     def path(c):
-        mm = metamodel_from_str(GRAMMAR)
+        # selector: the rule User is a Python user class with class-level defaults for its lists
+        uc = c.branch(z3.Bool('user_class_with_class_level_list_defaults'))
+        mm = metamodel_from_str(GRAMMAR, classes=[make_user_class()] if uc else [])
         attempts = {}
-        sched = []
+        sched = [(-1, 0)] if uc else []        # marker entry: user class on
         default = PlainName()
 
         def provider(obj, attr, obj_ref):
@@ -259,7 +276,8 @@ def replay_schedule(ci, schedule):
     from textx.scoping import Postponed
     from textx.scoping.providers import PlainName
     text = CASES[ci][0]
-    mm = metamodel_from_str(GRAMMAR)
+    uc = any(tuple(x) == (-1, 0) for x in schedule)
+    mm = metamodel_from_str(GRAMMAR, classes=[make_user_class()] if uc else [])
     attempts = {}
     sset = {tuple(x) for x in schedule}
     default = PlainName()
@@ -352,7 +370,8 @@ def main():
     results = pmap(obligation, items)
     chk.cov['functions_encoded'] = src_hash(M.ReferenceResolver.resolve_one_step, M.parse_tree_to_objgraph)
     chk.cov['bounds'] = {'cases': [CASES[c][1] for c in cases], 'postponable_attempts_per_reference': max_rounds}
-    chk.cov['stubs'] = ['scope provider = PlainName wrapped by a schedule-driven Postponed() decision']
+    chk.cov['stubs'] = ['scope provider = PlainName wrapped by a schedule-driven Postponed() decision',
+                        'by selector the rule User is a Python user class with class-level list defaults']
     chk.cov['outside_claim'] = ['longer lists / more rounds', 'other file layouts', 'providers that modify the model']
     chk.cov['bounds']['file_cases'] = [FILE_CASES[int(i[0][1:])][1] for i in items if isinstance(i[0], str)]
     chk.assumptions = ['finite schedule space explored exhaustively (solver-steered path enumeration)']
